@@ -43,6 +43,7 @@ type srvCfg struct {
 	wait     bool
 	bl       *blocklist
 	budget   int // -1 = unlimited
+	storeFail bool // the underlying BEP 44 store fails Put for items with seq % 7 == 3
 	scenario string
 }
 
@@ -142,6 +143,16 @@ func (st *srvState) waitQuiet() bool {
 
 func blString(b *blocklist) string { return b.String() }
 
+// a bep44.Store whose Put fails with an ordinary (non-KRPC) error for some items
+type failingStore struct{ *bep44.Memory }
+
+func (f failingStore) Put(i *bep44.Item) error {
+	if ((i.Seq%7)+7)%7 == 3 {
+		return fmt.Errorf("disk full")
+	}
+	return f.Memory.Put(i)
+}
+
 func startServer(c *srvCase) *srvState {
 	st := &srvState{c: c, conn: newFakeConn(), cancels: map[int]context.CancelFunc{}, doneQ: map[int]bool{}, qdst: map[int]*net.UDPAddr{}, qt: map[int]string{},
 		tokens: map[string][]tokInfo{}, announced: map[string]map[string]int{}, lastTok: map[string]string{}, bl: c.cfg.bl}
@@ -160,6 +171,9 @@ func startServer(c *srvCase) *srvState {
 	}
 	st.mem = bep44.NewMemory()
 	cfg.Store = st.mem
+	if c.cfg.storeFail {
+		cfg.Store = failingStore{st.mem}
+	}
 	cfg.Logger = log.NewLogger().FilterLevel(log.Critical)
 	if c.cfg.bl != nil {
 		cfg.IPBlocklist = c.cfg.bl
@@ -1020,8 +1034,8 @@ func runServerCase(c *srvCase) {
 	if cfg.budget >= 0 {
 		budget = strconv.Itoa(cfg.budget)
 	}
-	emit("sbegin %d root=%s passive=%d nosec=%d ps=%d cb=%d veto=%s wait=%d secret=%s now=%d bl=%s budget=%s exp=%d scenario=%s => ok",
-		c.idx, hx(cfg.root[:]), b2i(cfg.passive), b2i(cfg.nosec), b2i(cfg.ps), b2i(cfg.cb), vs, b2i(cfg.wait), hx(secret), st.now().UnixNano(), blString(cfg.bl), budget, int64(2*time.Hour), cfg.scenario)
+	emit("sbegin %d root=%s passive=%d nosec=%d ps=%d cb=%d veto=%s wait=%d secret=%s now=%d bl=%s budget=%s exp=%d storefail=%d scenario=%s => ok",
+		c.idx, hx(cfg.root[:]), b2i(cfg.passive), b2i(cfg.nosec), b2i(cfg.ps), b2i(cfg.cb), vs, b2i(cfg.wait), hx(secret), st.now().UnixNano(), blString(cfg.bl), budget, int64(2*time.Hour), b2i(cfg.storeFail), cfg.scenario)
 	out.Flush()
 	for i := range c.evs {
 		st.exec(i, &c.evs[i])
